@@ -465,6 +465,17 @@ theorem standard_namespaces_are_uris :
     Tables.standardNamespaces.all (fun x => isUri (some x.1) || x.1.contains '-') = true := by
   decide +kernel
 
+/-- the characters `is_uri` lets through include the letters, digits and the
+RFC 2396 marks/reserved characters `; / ? : @ & = + $ . _ ! ~ * ' ( ) %`
+(`-` and `,` are missing: finding C05-uri-hyphen) -/
+theorem uri_chars_cover :
+    (['a','b','c','d','e','f','g','h','i','j','k','l','m','n','o','p','q','r','s','t','u','v','w','x','y','z',
+      'A','B','C','D','E','F','G','H','I','J','K','L','M','N','O','P','Q','R','S','T','U','V','W','X','Y','Z',
+      '0','1','2','3','4','5','6','7','8','9',
+      ';','/','?',':','@','&','=','+','$','.','_','!','~','*',Char.ofNat 39,'(',')','%'] : List Char).all
+      (fun c => Tables.uriBodyChars.contains c.toNat && Tables.uriFragmentChars.contains c.toNat) = true := by
+  decide +kernel
+
 /-! ## `test(strict=True)` -/
 
 /-- a strict test on `int` succeeds only for the canonical spelling `str(int(s))` -/
@@ -644,6 +655,42 @@ example : MapOk asciiCEnv [(some ['x','s'], ['u','r','n',':','a']), (none, ['u',
     QNameOk asciiCEnv (some ['u','r','n',':','b']) ['a','.','b'] := by
   refine ⟨⟨by unfold KeysNodup; decide, by decide⟩, by decide, ?_⟩
   intro u hu; injection hu with hu; subst hu; decide
+
+/-- `prefix:local` with a bound prefix, any XSD white space around it, denotes
+`{uri}local` -/
+theorem qname_accepts_prefixed (e : CEnv) (hok : EnvOk e) (pre post p l u : Str) (m : NsMap)
+    (hpre : AllXsdSpace pre) (hpost : AllXsdSpace post)
+    (hp : isNcName e p = true) (hl : isNcName e l = true) (hget : m.get (some p) = some u) (hu : u ≠ []) :
+    qnameDeserialize e (pre ++ (p ++ ':' :: l) ++ post) (some m) = some ('{' :: u ++ '}' :: l) := by
+  have hg := ncName_goodPrefix e hok p hp
+  rw [qnameDeserialize_pad e pre post _ _ hpre hpost (prefixed_tight e hok p l hg hl)]
+  have hmne : m.isEmpty = false := by
+    cases m with
+    | nil => simp [NsMap.get] at hget
+    | cons a r => rfl
+  exact deser_prefixed e hok p l u m hg hl hu hmne hget
+
+/-- an unprefixed name denotes a name in the default namespace of the map, or in no
+namespace when there is none (XSD's rule for QName values) -/
+theorem qname_accepts_bare (e : CEnv) (hok : EnvOk e) (pre post l : Str) (m : NsMap)
+    (hpre : AllXsdSpace pre) (hpost : AllXsdSpace post) (hl : isNcName e l = true) :
+    qnameDeserialize e (pre ++ l ++ post) (some m) =
+      some (match m.get none with
+        | some u => if u.isEmpty then l else '{' :: u ++ '}' :: l
+        | none => l) := by
+  rw [qnameDeserialize_pad e pre post _ _ hpre hpost (ncName_tight e hok l hl), deser_bare e hok l m hl]
+  cases m with
+  | nil => simp [NsMap.get]
+  | cons a r =>
+    simp only [List.isEmpty_cons, Bool.false_eq_true, if_false]
+    cases NsMap.get (a :: r) none <;> rfl
+
+/-- the names `is_ncname` must at least accept: every ASCII NCName (letters,
+digits, `.`, `-`, `_`), whatever the Unicode tables say -/
+theorem ncname_ascii_accepts (e : CEnv) (s : Str) (h : isAsciiNcName s = true) : isNcName e s = true :=
+  isNcName_of_ascii e s h
+
+example : isAsciiNcName ['f', 'o', 'o', '-', 'b', 'a', 'r', '.', '1', '_'] = true := by decide
 
 /-! ### QName without prefix map (`{uri}local` notation) -/
 
